@@ -732,9 +732,10 @@ class Array:
         return self._apply_op_to_all_elements(operator.add, other)
 
     def __rsub__(self, other: Union[int, float]) -> Array:
-        # i - A == (-A) + i
-        neg = self._apply_op_to_all_elements(operator.neg, None)
-        return neg._apply_op_to_all_elements(operator.add, other)
+        # i - A, item by item (not (-A) + i: the negated items need not fit the dtype even when the result does)
+        def rsub(a, b):
+            return b - a
+        return self._apply_op_to_all_elements(rsub, other)
 
     # Reverse operators between a scalar and something that can be a BitArray.
 
